@@ -550,7 +550,7 @@ pub fn cases(quick: bool) -> Vec<Case> {
             }
         }
     }
-    for l in if quick { vec![63usize, 64, 65, 129] } else { vec![31, 32, 33, 63, 64, 65, 66, 100, 127, 128, 129, 130, 257] } {
+    for l in if quick { (9usize..=80).chain([97, 100, 127, 128, 129]).collect::<Vec<usize>>() } else { (9usize..=140).chain([191, 192, 193, 255, 256, 257, 300]).collect() } {
         for which in 0..12u8 {
             v.push(Case::Long { which, l, dev: if quick || which == 3 || l > 130 { 1 } else { 2 } });
         }
@@ -613,7 +613,7 @@ pub fn run(run: &mut Run) {
     run.states = cs.len() as u64;
     run.traces_validated = run.evaluations;
     run.distinct_nontrivial = nontrivial;
-    run.rule = "lattice rates {0,1/4,1/3,1/2,3/4,1}: WithRate / WithOneOverLength flip-mask law = product law; one Umad value reused for an empty and a non-empty genome (product law); Umad output-genome law = per-gene law (keep 1-d, insert a(1-d), uniform generator) incl. expected size l(1-d)(1+a) and the empty-parent rate; Bitstring::random / random_with_probability / BoolGenerator product laws; GeneGenerator close probability (explicit and 1/(n+1)) and uniform instruction choice, for single genes and for whole random genomes of 0..2 (3) genes built through the collection generator (Plushy and Vec<PushGene>): product law over the positions; all grid word sequences, laws compared as exact rationals. (UniformXo's exact 1/2 law on short genomes is decided in C10.) Long genomes (63..129, thorough up to 257): flips, bit generators and UniformXo under every stream with at most 1 (2) non-default words over the grid plus the extreme words: every gene must be seen with both outcomes and every pair of genes with different outcomes (alphabet with alternating bit-block words, so that implementations serving several genes from one word are driven through every pair as well). non-trivial = scenarios whose law has more than one outcome".into();
+    run.rule = "lattice rates {0,1/4,1/3,1/2,3/4,1}: WithRate / WithOneOverLength flip-mask law = product law; one Umad value reused for an empty and a non-empty genome (product law); Umad output-genome law = per-gene law (keep 1-d, insert a(1-d), uniform generator) incl. expected size l(1-d)(1+a) and the empty-parent rate; Bitstring::random / random_with_probability / BoolGenerator product laws; GeneGenerator close probability (explicit and 1/(n+1)) and uniform instruction choice, for single genes and for whole random genomes of 0..2 (3) genes built through the collection generator (Plushy and Vec<PushGene>): product law over the positions; all grid word sequences, laws compared as exact rationals. (UniformXo's exact 1/2 law on short genomes is decided in C10.) Long genomes (every length 9..80 and 97..129, thorough 9..140 and up to 300): flips, bit generators and UniformXo under every stream with at most 1 (2) non-default words over the grid plus the extreme words: every gene must be seen with both outcomes and every pair of genes with different outcomes (alphabet with alternating bit-block words, so that implementations serving several genes from one word are driven through every pair as well). non-trivial = scenarios whose law has more than one outcome".into();
     run.bound("umad_parent_lengths", json!("0, 1, 2 (m=4 lattice); thirds on length 1"));
     run.bound("flip_lengths", json!(if run.quick() { "0..2 (1/l: 1..3)" } else { "0..3 (1/l: 1..4)" }));
     run.bound("instruction_set_sizes", json!("1..5"));
